@@ -344,6 +344,10 @@ def run_case(kind, cfg, v, participant, opts, encrypted=False):
         stanza = kind.gen(v, participant, opts, encrypted) if kind.encryptable else kind.gen(v, participant, opts)
         exc = st.inject(stanza)
         sent, got = st.take()
+    return _judge(kind, cfg, stanza, exc, sent, got)
+
+
+def _judge(kind, cfg, stanza, exc, sent, got):
     answers = [n for n in sent if is_answer(n)]
     shown = {"config": cfg.key, "stanza": S.render(stanza)[:700],
              "written_downward": [S.render(n)[:400] if isinstance(n, ProtocolTreeNode) else repr(n)[:100] for n in sent],
@@ -362,6 +366,40 @@ def run_case(kind, cfg, v, participant, opts, encrypted=False):
         if bad:
             findings.append(("wrong-%s" % name, dict(shown, mismatches=bad)))
     return findings, (not findings), obs
+
+
+
+def run_pairs(item):
+    """stimulus B injected after stimulus A on the SAME stack (no encryption layers, every module selected): B must
+    still get exactly its one answer - what A left behind in the layers must not matter"""
+    cfgkey, name_a = item
+    cfg = P.Config.from_key(cfgkey)
+    P.patch_clocks()
+    ka = KIND[name_a]
+    out = []
+    n = 0
+    for kb in KINDS:
+        for (va, vb) in ((0, 0), (1, 2), (2, 1)):
+            pa = ka.participant[-1]
+            pb = kb.participant[-1]
+            if (ka.in_scope is not None and not ka.in_scope(cfg, va)) or (kb.in_scope is not None and not kb.in_scope(cfg, vb)):
+                continue
+            with P.ProtoStack(cfg) as st:
+                a = ka.gen(va, pa, 0)
+                b = kb.gen(vb, pb, 0)
+                st.inject(a)
+                st.take()
+                exc = st.inject(b)
+                sent, got = st.take()
+            n += 1
+            findings, ok, obs = _judge(kb, cfg, b, exc, sent, got)
+            for what, detail in findings:
+                out.append(("C07:%s:%s:after-another-stanza" % (kb.name, what),
+                            "%s injected after %s on the same stack: %s (configuration %s)" % (kb.name, name_a, what, cfgkey),
+                            {"pair": [name_a, kb.name], "vectors": [va, vb], "config": cfgkey}, detail))
+            if findings:
+                break
+    return out, n
 
 
 def run_item(item):
@@ -408,6 +446,11 @@ def aggregate(raw, tried):
     return out
 
 
+def runner_known(sig):
+    from vf import runner
+    return runner.match_known(PROPERTY, sig, runner.load_known()) is not None
+
+
 def run(ctx):
     thorough = not ctx.quick
     P.prepare()
@@ -431,6 +474,14 @@ def run(ctx):
         for n, k in tr:
             tried.setdefault(n, set()).add(k)
     ctx.add_violations(aggregate(raw, tried))
+    if not ctx.violations or all(runner_known(sig) for sig in ctx.violations):
+        pair_cfgs = [c.key for c in P.CONFIGS if not c.enc and all(getattr(c, m) for m in P.MODULES)]
+        npairs = 0
+        for vs, n in ctx.pmap(run_pairs, [(ck, k.name) for ck in pair_cfgs for k in KINDS]):
+            npairs += n
+            ctx.add_violations(sorted(vs, key=lambda v: v[0]))
+        evals += npairs
+        ctx.coverage["ordered_pairs_on_one_stack"] = npairs
 
     ctx.sample({"kind": "notification-gp2-add", "stanza": S.render(KIND["notification-gp2-add"].gen(0, True, 3))})
     ctx.sample({"kind": "call-offer", "stanza": S.render(KIND["call-offer"].gen(1, False, 1))})
@@ -463,6 +514,8 @@ def run(ctx):
 
 def replay(ctx, case):
     """re-run the recorded variant in all 32 configurations (the signature's config class is recomputed)"""
+    if case.get("pair"):
+        return [v for v in run_pairs((case["config"], case["pair"][0]))[0] if v[2]["pair"] == case["pair"]]
     kind = KIND[case["kind"]]
     raw, tried = [], {}
     for cfg in P.CONFIGS:
